@@ -135,7 +135,9 @@ def run_delivery(desc, out):
         st_["actions"] = sorted(st_["actions"] + [{"m": mk_, "at": 1, "op": "real_time_raise"}], key=lambda a: a["at"])
     if raise_run:
         case["config"] = dict(case.get("config", {}), raise_errors=True)
-        case["strategies"][0]["raise_at"] = [["book", 2]]
+        # the run ends with an exception raised in the update loop, or in the start-up / shut-down part of run()
+        where = (["book", 2], ["start", 0], ["finish", 0], ["new_market", 0])[(desc["idx"] // 9) % 4]
+        case["strategies"][-1 if where[0] == "finish" else 0]["raise_at"] = [where]
     two_filters = desc["idx"] % 7 == 5 and not raise_run and len(case["strategies"]) > 1
     if two_filters:
         # each strategy names its own listener filter (falsy values are filters too): what each is handed is what ITS filter lets through
@@ -162,8 +164,8 @@ def run_delivery(desc, out):
     kw = case["listener_kwargs"]
     out.rule("clock-restored")
     if not tr.datetime_restored:
-        out.v("real-clock-not-restored", {"run_raised": bool(tr.abort)}, abort=tr.abort)
-    out.d("c14:%d:%s:%s:%s:%s" % (len(case["markets"]), bool(case.get("event_processing")), sorted(kw), bool(case.get("event_groups")), raise_run))
+        out.v("real-clock-not-restored", {"run_raised": bool(tr.abort), "raised_in": (tr.injected[0]["kind"] if tr.injected and tr.abort else "-")}, abort=tr.abort)
+    out.d("c14:%d:%s:%s:%s:%s" % (len(case["markets"]), bool(case.get("event_processing")), sorted(kw), bool(case.get("event_groups")), (tr.injected[0]["kind"] if tr.injected else "-") if raise_run else False))
     if raise_run:
         if tr.injected and not tr.abort:
             out.v("raise-errors-did-not-propagate", {}, injected=tr.injected)
